@@ -6,6 +6,10 @@
 //!       `decpub <hex> <oracle>`           PublicKey::try_decode_protobuf on arbitrary bytes
 //!       `decpriv <hex> <oracle>`          Keypair::from_protobuf_encoding on arbitrary bytes
 //!       `privkey <ty> <enc|unsupported>`  Keypair::{to,from}_protobuf_encoding round trip
+//!       `rawdec <pkcs8|secpder> <hex>`    Keypair::rsa_from_pkcs8 / secp256k1_from_der (totality only)
+//! Malformed key material is STRUCTURE-AWARE: well-formed DER containers of real keys (RSA SPKI and
+//! PKCS#1, ECDSA SPKI and private DER, PKCS#8, SEC1) are parsed into a tree and exactly one element
+//! is damaged at a time; fixed-size keys (ed25519, secp256k1) get length/prefix/range damage.
 //! The oracle of `decpub/decpriv` is read off the implementation's own answer: `-` key parser not
 //! reached, `0` key bytes rejected, `1:<canonical re-encoding>` accepted (key-type validity is
 //! abstract in the model; the model validates that the parser was reached exactly when it says so).
@@ -187,6 +191,248 @@ fn op_privkey(out: &mut Out, kp: &Keypair) {
             out.op(&format!("privkey {} -", ty));
             out.imp(&format!("panic:{m} -"));
         }
+    }
+}
+
+
+fn op_rawdec(out: &mut Out, kind: &str, bs: &[u8]) {
+    out.op(&format!("rawdec {} {}", kind, hex(bs)));
+    let r = hcore::guarded(|| {
+        let mut v = bs.to_vec();
+        match kind {
+            "pkcs8" => Keypair::rsa_from_pkcs8(&mut v).is_ok(),
+            _ => Keypair::secp256k1_from_der(&mut v).is_ok(),
+        }
+    });
+    match r {
+        Ok(true) => out.imp("ok"),
+        Ok(false) => out.imp("err"),
+        Err(m) => out.imp(&format!("panic:{m}")),
+    }
+}
+
+// ---------------------------------------------------------------- structure-aware DER damage
+
+#[derive(Clone, Debug)]
+enum Body {
+    Bytes(Vec<u8>),
+    Kids(Vec<Node>),
+}
+
+/// one TLV; `prefix` are content bytes in front of nested DER (the unused-bits octet of a BIT STRING)
+#[derive(Clone, Debug)]
+struct Node {
+    tag: u8,
+    prefix: Vec<u8>,
+    body: Body,
+}
+
+fn der_len(n: usize) -> Vec<u8> {
+    if n < 128 {
+        vec![n as u8]
+    } else if n < 256 {
+        vec![0x81, n as u8]
+    } else {
+        vec![0x82, (n >> 8) as u8, n as u8]
+    }
+}
+
+fn parse_nodes(mut b: &[u8]) -> Option<Vec<Node>> {
+    let mut out = vec![];
+    while !b.is_empty() {
+        let (n, used) = parse_node(b)?;
+        out.push(n);
+        b = &b[used..];
+    }
+    Some(out)
+}
+
+fn parse_node(b: &[u8]) -> Option<(Node, usize)> {
+    if b.len() < 2 {
+        return None;
+    }
+    let tag = b[0];
+    let (len, hdr) = match b[1] {
+        l if l < 128 => (l as usize, 2),
+        0x81 if b.len() >= 3 => (b[2] as usize, 3),
+        0x82 if b.len() >= 4 => (((b[2] as usize) << 8) | b[3] as usize, 4),
+        _ => return None,
+    };
+    if b.len() < hdr + len {
+        return None;
+    }
+    let content = &b[hdr..hdr + len];
+    let node = if tag & 0x20 != 0 {
+        Node { tag, prefix: vec![], body: Body::Kids(parse_nodes(content)?) }
+    } else if tag == 3 && content.first() == Some(&0) && content.len() > 2 && content[1] == 0x30 {
+        match parse_nodes(&content[1..]) {
+            Some(k) => Node { tag, prefix: vec![0], body: Body::Kids(k) },
+            None => Node { tag, prefix: vec![], body: Body::Bytes(content.to_vec()) },
+        }
+    } else if tag == 4 && content.len() > 2 && content[0] == 0x30 {
+        match parse_nodes(content) {
+            Some(k) => Node { tag, prefix: vec![], body: Body::Kids(k) },
+            None => Node { tag, prefix: vec![], body: Body::Bytes(content.to_vec()) },
+        }
+    } else {
+        Node { tag, prefix: vec![], body: Body::Bytes(content.to_vec()) }
+    };
+    Some((node, hdr + len))
+}
+
+fn content_of(n: &Node) -> Vec<u8> {
+    let mut c = n.prefix.clone();
+    match &n.body {
+        Body::Bytes(b) => c.extend(b),
+        Body::Kids(k) => {
+            for x in k {
+                c.extend(encode_node(x));
+            }
+        }
+    }
+    c
+}
+
+fn encode_node(n: &Node) -> Vec<u8> {
+    if n.tag == 0xff {
+        // raw replacement bytes (a damaged element)
+        return match &n.body {
+            Body::Bytes(b) => b.clone(),
+            _ => vec![],
+        };
+    }
+    let c = content_of(n);
+    let mut v = vec![n.tag];
+    v.extend(der_len(c.len()));
+    v.extend(c);
+    v
+}
+
+fn count_nodes(n: &Node) -> usize {
+    1 + match &n.body {
+        Body::Kids(k) => k.iter().map(count_nodes).sum(),
+        _ => 0,
+    }
+}
+
+/// replace the `k`-th node (preorder) by raw bytes computed from it
+fn replace_node(n: &Node, k: &mut usize, f: &dyn Fn(&Node) -> Vec<u8>) -> Node {
+    if *k == 0 {
+        *k = usize::MAX;
+        return Node { tag: 0xff, prefix: vec![], body: Body::Bytes(f(n)) };
+    }
+    if *k != usize::MAX {
+        *k -= 1;
+    }
+    match &n.body {
+        Body::Kids(kids) => {
+            let mut nk = vec![];
+            for x in kids {
+                nk.push(if *k == usize::MAX { x.clone() } else { replace_node(x, k, f) });
+            }
+            Node { tag: n.tag, prefix: n.prefix.clone(), body: Body::Kids(nk) }
+        }
+        _ => n.clone(),
+    }
+}
+
+const N_DAMAGE: usize = 34;
+
+/// the damaged encoding of one element (everything around it stays well-formed)
+fn damage(n: &Node, kind: usize) -> Vec<u8> {
+    let c = content_of(n);
+    let t = n.tag;
+    let tlv = |tag: u8, len: Vec<u8>, content: &[u8]| {
+        let mut v = vec![tag];
+        v.extend(len);
+        v.extend_from_slice(content);
+        v
+    };
+    let enc = encode_node(n);
+    match kind {
+        0 => tlv(t, vec![0], &[]),                                        // empty content
+        1 => tlv(t, vec![1], &c[..c.len().min(1)]),                       // one content byte (or lying length 1)
+        2 => tlv(t, vec![2], &c[..c.len().min(2)]),
+        3 => tlv(t, der_len(c.len() + 1), &c),                            // declared length + 1
+        4 => tlv(t, der_len(c.len().saturating_sub(1)), &c),              // declared length - 1 (a trailing byte)
+        5 => {                                                             // indefinite length
+            let mut v = tlv(t, vec![0x80], &c);
+            v.extend([0, 0]);
+            v
+        }
+        6 => tlv(t, if c.len() < 128 { vec![0x81, c.len() as u8] } else { vec![0x83, 0, (c.len() >> 8) as u8, c.len() as u8] }, &c), // non-minimal long form
+        7 => tlv(t, vec![0x84, 0xff, 0xff, 0xff, 0xff], &c),              // 4 GiB
+        8 => tlv(t, vec![0x88, 0xff, 0xff, 0xff, 0xff, 0xff, 0xff, 0xff, 0xff], &c), // usize::MAX
+        9 => tlv(t, vec![0x89, 1, 0, 0, 0, 0, 0, 0, 0, 0], &c),           // > usize
+        10 => tlv(t, vec![0xff], &c),                                     // reserved length octet
+        11 => tlv(t ^ 0x01, der_len(c.len()), &c),                        // neighbouring tag
+        12 => tlv(if t == 3 { 4 } else { 3 }, der_len(c.len()), &c),      // BIT STRING <-> OCTET STRING
+        13 => tlv(t ^ 0x20, der_len(c.len()), &c),                        // constructed bit flipped
+        14 => tlv(0x1f, der_len(c.len()), &c),                            // high-tag-number form
+        15 => vec![],                                                     // element dropped
+        16 => [enc.clone(), enc].concat(),                                // element duplicated
+        17 => [enc, vec![0x00]].concat(),                                 // a stray byte after it
+        18 => [enc, vec![0x05, 0x00]].concat(),                           // a stray NULL after it
+        19 => vec![t],                                                    // tag only
+        20 => vec![t, 0x81],                                              // truncated length
+        21 => tlv(t, der_len(c.len()), &c.iter().map(|x| x ^ 0xff).collect::<Vec<_>>()), // content inverted
+        22 => tlv(t, der_len(c.len()), &vec![0u8; c.len()]),              // content zeroed
+        23 => { let mut d = c.clone(); if let Some(x) = d.first_mut() { *x = 1 } tlv(t, der_len(d.len()), &d) }   // unused bits = 1 / first byte = 1
+        24 => { let mut d = c.clone(); if let Some(x) = d.first_mut() { *x = 7 } tlv(t, der_len(d.len()), &d) }
+        25 => { let mut d = c.clone(); if let Some(x) = d.first_mut() { *x = 8 } tlv(t, der_len(d.len()), &d) }
+        26 => { let mut d = c.clone(); if let Some(x) = d.first_mut() { *x = 0xff } tlv(t, der_len(d.len()), &d) }
+        27 => { let mut d = c.clone(); if let Some(x) = d.last_mut() { *x ^= 1 } tlv(t, der_len(d.len()), &d) }    // last byte changed (OID arc, LSB)
+        28 => { let mut d = vec![0u8]; d.extend(&c); tlv(t, der_len(d.len()), &d) }                              // leading zero added
+        29 => { let mut d = c.clone(); if let Some(x) = d.first_mut() { *x |= 0x80 } tlv(t, der_len(d.len()), &d) } // sign bit / arc continuation
+        30 => tlv(6, vec![7], &[0x2a, 0x86, 0x48, 0xce, 0x3d, 0x02, 0x01]), // id-ecPublicKey instead
+        31 => tlv(6, vec![9], &[0x2a, 0x86, 0x48, 0x86, 0xf7, 0x0d, 0x01, 0x01, 0x0b]), // sha256WithRSAEncryption instead
+        32 => tlv(2, vec![1], &[0]),                                      // INTEGER 0 instead
+        _ => tlv(t, der_len(c.len() / 2), &c[..c.len() / 2]),             // first half only
+    }
+}
+
+/// every (element, damage) of a well-formed DER document
+fn der_damages(doc: &[u8]) -> Vec<Vec<u8>> {
+    let Some((root, used)) = parse_node(doc) else { return vec![] };
+    assert_eq!(used, doc.len(), "generator: base DER must be well-formed");
+    let n = count_nodes(&root);
+    let mut out = vec![];
+    for k in 0..n {
+        for kind in 0..N_DAMAGE {
+            let mut kk = k;
+            let d = encode_node(&replace_node(&root, &mut kk, &|x| damage(x, kind)));
+            if d != doc {
+                out.push(d);
+            }
+        }
+    }
+    // document-level: trailing bytes, truncation at every element boundary is covered above; add cuts
+    for cut in [0usize, 1, 2, 3, doc.len() / 2, doc.len() - 1] {
+        out.push(doc[..cut.min(doc.len())].to_vec());
+    }
+    out.push([doc, &[0u8][..]].concat());
+    out.push([doc, doc].concat());
+    out
+}
+
+fn key_msg(ty: u64, data: &[u8]) -> Vec<u8> {
+    let mut v = vec![0x08];
+    v.extend(varint(ty));
+    v.push(0x12);
+    v.extend(varint(data.len() as u64));
+    v.extend_from_slice(data);
+    v
+}
+
+/// children of the PKCS#8 wrapper: the PKCS#1 RSAPrivateKey inside its OCTET STRING
+fn pkcs1_of_pkcs8(pk8: &[u8]) -> Vec<u8> {
+    let (root, _) = parse_node(pk8).expect("fixture");
+    match &root.body {
+        Body::Kids(k) => match &k[2].body {
+            Body::Kids(inner) => encode_node(&inner[0]),
+            Body::Bytes(b) => b.clone(),
+        },
+        _ => panic!("fixture shape"),
     }
 }
 
@@ -386,6 +632,7 @@ pub fn run(args: &Args, out: &mut Out) {
                     "fromstr" => op_fromstr(out, &String::from_utf8(hcore::unhex(&op[1])).expect("utf8")),
                     "decpub" => op_dec(out, false, &hcore::unhex(&op[1])),
                     "decpriv" => op_dec(out, true, &hcore::unhex(&op[1])),
+                    "rawdec" => op_rawdec(out, &op[1], &hcore::unhex(&op[2])),
                     "pubkey" => {
                         // rebuild the key from its protobuf encoding
                         let ty: u32 = op[1].parse().unwrap();
@@ -567,6 +814,180 @@ pub fn run(args: &Args, out: &mut Out) {
             }
         }
         idx += 1;
+    }
+    // 6. structure-aware damage of real key containers, one element at a time
+    {
+        let full = args.thorough && args.count == 0;
+        let mut rng = Rng::for_case(args.seed, 9_000_000);
+        // public: RSA SubjectPublicKeyInfo (three fixture keys), ECDSA SubjectPublicKeyInfo
+        let mut pubs: Vec<(u64, Vec<u8>)> = vec![];
+        for i in 0..(if full { 3 } else { 1 }) {
+            let mut der = RSA_FIXTURES[i].to_vec();
+            let kp = Keypair::rsa_from_pkcs8(&mut der).expect("fixture");
+            pubs.push((0, pub_parts(&kp.public()).1));
+        }
+        for _ in 0..(if full { 3 } else { 1 }) {
+            pubs.push((3, pub_parts(&keypair(&mut rng, 3).public()).1));
+        }
+        for (ty, der) in &pubs {
+            let ds = der_damages(der);
+            for chunk in ds.chunks(40) {
+                out.case(idx, &format!("derpub{} nt=1", ty));
+                for d in chunk {
+                    op_dec(out, false, &key_msg(*ty, d));
+                    // the same bytes under another key type now and then
+                    if rng.chance(1, 12) {
+                        op_dec(out, false, &key_msg(rng.below(4), d));
+                    }
+                }
+                out.end();
+                idx += 1;
+            }
+        }
+        // hand-made SPKI with an empty / tiny BIT STRING (no unused-bits octet at all)
+        {
+            out.case(idx, "spkibits nt=1");
+            let alg = [0x30u8, 0x0d, 0x06, 0x09, 0x2a, 0x86, 0x48, 0x86, 0xf7, 0x0d, 0x01, 0x01, 0x01, 0x05, 0x00];
+            for bits in [vec![], vec![0u8], vec![1], vec![0, 0], vec![0, 0x30], vec![0, 0x30, 0x00], vec![7, 0x80]] {
+                for null in [true, false] {
+                    let mut a = alg.to_vec();
+                    if !null {
+                        a.truncate(13);
+                        a[1] = 0x0b;
+                    }
+                    let mut body = a.clone();
+                    body.push(0x03);
+                    body.push(bits.len() as u8);
+                    body.extend(&bits);
+                    let mut spki = vec![0x30, body.len() as u8];
+                    spki.extend(body);
+                    op_dec(out, false, &key_msg(0, &spki));
+                    op_dec(out, false, &key_msg(3, &spki));
+                }
+            }
+            out.end();
+            idx += 1;
+        }
+        // private: RSA PKCS#1 (from the PKCS#8 fixture), ECDSA private DER
+        let mut privs: Vec<(u64, Vec<u8>)> = vec![(0, pkcs1_of_pkcs8(RSA_FIXTURES[0]))];
+        if let Ok(enc) = keypair(&mut rng, 3).to_protobuf_encoding() {
+            privs.push((3, split_key_msg(&enc).1));
+        }
+        for (ty, der) in &privs {
+            let ds = der_damages(der);
+            let stride = if full || *ty != 0 { 1 } else { 3 };
+            let picked: Vec<&Vec<u8>> = ds.iter().step_by(stride).collect();
+            for chunk in picked.chunks(40) {
+                out.case(idx, &format!("derpriv{} nt=1", ty));
+                for d in chunk {
+                    op_dec(out, true, &key_msg(*ty, d));
+                }
+                out.end();
+                idx += 1;
+            }
+        }
+        // the non-protobuf decoders: PKCS#8 and SEC1 ECPrivateKey for secp256k1
+        {
+            let ds = der_damages(RSA_FIXTURES[0]);
+            let stride = if full { 1 } else { 4 };
+            let picked: Vec<&Vec<u8>> = ds.iter().step_by(stride).collect();
+            for chunk in picked.chunks(40) {
+                out.case(idx, "derpkcs8 nt=1");
+                for d in chunk {
+                    op_rawdec(out, "pkcs8", d);
+                }
+                out.end();
+                idx += 1;
+            }
+            let mut sec1 = vec![0x30, 0x25, 0x02, 0x01, 0x01, 0x04, 0x20];
+            sec1.extend(rng.bytes(32));
+            out.case(idx, "dersec1 nt=1");
+            op_rawdec(out, "secpder", &sec1);
+            for d in der_damages(&sec1) {
+                op_rawdec(out, "secpder", &d);
+            }
+            out.end();
+            idx += 1;
+        }
+        // fixed-size keys: ed25519 (32), secp256k1 (33 / 65), their private counterparts (64 / 32)
+        {
+            let ed = pub_parts(&keypair(&mut rng, 1).public()).1;
+            let kp2 = keypair(&mut rng, 2);
+            let sp = pub_parts(&kp2.public()).1;
+            let sp_unc = kp2.public().try_into_secp256k1().unwrap().to_bytes_uncompressed().to_vec();
+            let mut variants: Vec<(u64, Vec<u8>)> = vec![];
+            let lens = |v: &Vec<u8>| -> Vec<Vec<u8>> {
+                let mut out = vec![vec![], v[..1].to_vec(), v[..v.len() - 1].to_vec(), [v.clone(), vec![0]].concat(), [v.clone(), v.clone()].concat()];
+                out.push(vec![0xff; v.len()]);
+                out.push(vec![0x00; v.len()]);
+                let mut w = v.clone();
+                let l = w.len() - 1;
+                w[l] ^= 0x80;
+                out.push(w);
+                out
+            };
+            for v in lens(&ed) {
+                variants.push((1, v));
+            }
+            // small-order / non-canonical ed25519 encodings
+            for first in [0x00u8, 0x01, 0xec, 0xed, 0xee] {
+                let mut v = vec![0xffu8; 32];
+                v[0] = first;
+                v[31] = 0x7f;
+                variants.push((1, v.clone()));
+                let mut z = vec![0u8; 32];
+                z[0] = first;
+                variants.push((1, z));
+            }
+            for base in [&sp, &sp_unc] {
+                for v in lens(base) {
+                    variants.push((2, v));
+                }
+                for prefix in [0x00u8, 0x01, 0x02, 0x03, 0x04, 0x05, 0x06, 0x07, 0xff] {
+                    let mut v = base.clone();
+                    v[0] = prefix;
+                    variants.push((2, v));
+                }
+            }
+            // x = field prime and above
+            let mut v = vec![0x02u8];
+            v.extend([0xff; 32]);
+            variants.push((2, v));
+            out.case(idx, "fixedpub nt=1");
+            for (ty, v) in &variants {
+                op_dec(out, false, &key_msg(*ty, v));
+            }
+            out.end();
+            idx += 1;
+            let mut pv: Vec<(u64, Vec<u8>)> = vec![];
+            for ty in [1u32, 2] {
+                if let Ok(enc) = keypair(&mut rng, ty).to_protobuf_encoding() {
+                    let d = split_key_msg(&enc).1;
+                    for v in lens(&d) {
+                        pv.push((ty as u64, v));
+                    }
+                    if ty == 1 {
+                        pv.push((1, d[..32].to_vec())); // secret half only
+                        let mut w = d.clone();
+                        w[40] ^= 1; // public half does not match the secret half
+                        pv.push((1, w));
+                    } else {
+                        // the group order n and n-1 (big endian)
+                        let n = hcore::unhex("fffffffffffffffffffffffffffffffebaaedce6af48a03bbfd25e8cd0364141");
+                        pv.push((2, n.clone()));
+                        let mut m = n;
+                        m[31] -= 1;
+                        pv.push((2, m));
+                    }
+                }
+            }
+            out.case(idx, "fixedpriv nt=1");
+            for (ty, v) in &pv {
+                op_dec(out, true, &key_msg(*ty, v));
+            }
+            out.end();
+            idx += 1;
+        }
     }
     // 5. deep group nesting (prost's recursion limit)
     {
